@@ -113,3 +113,16 @@ Section Mismatch.
     end.
   Definition mismatches := mismatches_from 0.
 End Mismatch.
+
+(* positions at which two observation lists differ (debugging aid of the harness) *)
+Fixpoint obs_list_diff (i : N) (a b : list obs) : list N :=
+  match a, b with
+  | [], [] => []
+  | x :: a', y :: b' => if obs_eqb x y then obs_list_diff (i + 1) a' b' else i :: obs_list_diff (i + 1) a' b'
+  | _, _ => [i]
+  end.
+Definition obs_diff (a b : obs) : list N :=
+  match a, b with
+  | OL la, OL lb => obs_list_diff 0 la lb
+  | _, _ => if obs_eqb a b then [] else [0]
+  end.
